@@ -12,8 +12,8 @@ Proof. exact pool_no_duplicates. Qed.
    compared by the harness with the cached list and with the task_pool table)
    has exactly the abstract pool's tasks with the same status, flags, flows,
    satisfied prerequisites, outputs and submit number. *)
-Theorem c26_tick_end_pool_agrees : forall c s snap s',
-  step c s (ETickEnd snap) = Ok s' ->
+Theorem c26_tick_end_pool_agrees : forall c s snap hl hp s',
+  step c s (ETickEnd snap hl hp) = Ok s' ->
   length snap = length (pool s) /\
   forall v, In v snap -> exists p, find_task (pool s) (v_id v) = Some p /\ view_matches p v = true.
 Proof. exact tick_end_pool_agrees. Qed.
